@@ -9,6 +9,7 @@ mod c10;
 mod c14;
 mod c15;
 mod c13s;
+mod c18s;
 mod realbin;
 #[path = "../../schedmc/src/explore.rs"]
 mod explore;
@@ -49,6 +50,7 @@ fn main() {
         "C14" => c14::run(&tier, replay.as_deref()),
         "C15" => c15::run(&tier, replay.as_deref()),
         "C13S" => c13s::run(&tier),
+        "C18S" => c18s::run(&tier),
         _ => {
             eprintln!("srvmc: unknown property {prop}");
             2
